@@ -6,10 +6,21 @@ lean/Driver/WoehlerAnalysis.lean (ops `c18.*`), theorems lean/Proofs/C18.lean.
 
 Tolerances (documented choice).  Elementary and Probit are closed forms (sums, two regressions, sort): a transformed run
 must reproduce every parameter to 1e-9 relative (summation order and libm ulps, amplified by the regressions; observed
-<= 4e-14).  MaxLikeInf / MaxLikeFull end in scipy's Nelder-Mead (`optimize.fmin`, xtol = ftol = 1e-4 ABSOLUTE): the
-simplex path is scale-equivariant but the absolute stopping rule is not, so two runs agree only as far as the optimiser
-resolves the optimum; the property's relations are checked at ML_RTOL relative (measured, see ML_RTOL below) and the
-log-likelihood of the two answers must agree within ML_LTOL."""
+<= 4e-14).  MaxLikeInf / MaxLikeFull end in scipy's Nelder-Mead (`optimize.fmin`); since fix fc45e06 the code optimises
+parameters RELATIVE to their start values with xtol = 1e-10, ftol = 1e-12, so the objective handed to the optimiser is the
+same function for a scaled / permuted data set (theorems maxLikeInf_* / maxLikeFull_*: equivariance for ANY optimiser);
+two real runs still differ by rounding in the objective, which Nelder-Mead amplifies to about sqrt(eps) in the
+parameters: the relations are checked at ML_RTOL (measured, see below).
+
+The optimiser is the one external ingredient.  The harness puts a recording proxy in the place of the name `optimize`
+inside pylife.materialdata.woehler.maxlike: it passes every call on to scipy's real `fmin` (oracle runs), or - for the
+model correspondence only - answers with a vector chosen by the case (`stub`), which is exactly the model's
+"optimiser = arbitrary function" parameter.  One shortcut: MaxLikeFull on data WITHOUT run-outs fixes SD = 0, for which
+`likelihood_finite` returns -inf: the objective is the constant +inf, Nelder-Mead can only shrink its simplex towards
+the start vertex and returns the start after exhausting maxiter = maxfun = 1e5 (about 100 s per call).  There the proxy
+verifies that the objective is +inf on the start simplex and on probe points and returns the start at once (counted as
+`fmin_constant_inf_shortcuts`); `norun_real` cases run scipy's real Nelder-Mead on it (capped at 4000 evaluations) and
+compare."""
 import json
 import math
 import os
@@ -31,15 +42,31 @@ SOURCES = [
     "src/pylife/materialdata/woehler/likelihood.py",
     "src/pylife/materialdata/woehler/pearl_chain.py",
     "src/pylife/utils/probability_data.py",
+    "src/pylife/utils/functions.py",
 ]
 
 KEYS = ["k_1", "ND", "SD", "TN", "TS"]
 CF_RTOL = 1e-9        # closed-form analyzers
 ML_RTOL = 1e-5        # ML analyzers: an optimum of a double-precision objective is located to about sqrt(eps) ~ 1e-8 in the parameters, ND amplifies SD by the slope (<= 12) and Nelder-Mead adds path noise: measured <= 4e-7 on the repaired code, 1e-5 is the no-flake bound (unrepaired code: up to 6e-4 MaxLikeInf, 0.13 MaxLikeFull)
-ML_LTOL = 2e-4        # agreement of the log-likelihood of two optimiser answers; slack of "not worse than the start"
 K_RTOL = 1e-9         # model (Float) vs code
-FACTORS = [3.0, 7.0, 1000.0]
+FACTORS = [1e-4, 0.37, 3.0, 1000.0]                 # cases without their own `factors` (corpus)
+FACTOR_POOL_SMALL = [1e-4, 2.0 ** -10, 0.37]
+FACTOR_POOL_LARGE = [3.0, 7.0, 1000.0]
 C_STD = 0.39015207303618954
+C_RANGE = 2.5631031310892007
+PROBIT_TS_MAX = 1e6           # Probit TS = 10^(2.56 / slope) beyond this: the probit regression has slope 0 within rounding (guard `hps` of probit_load_scale)
+EXACT_SPREAD = 1e-12          # log10-spread of the shifted cycles below which the pearl-chain regression is a 0/0
+EXACT_RATE_MIN = 0.55         # exact data sets returning TN = TS = 1 within 1e-6: measured 0.81 (484/600, 27/32); a batch of 40 must stay above this
+
+
+FMIN_BUDGET = 30000           # objective evaluations per optimiser run; the unchanged code needs < 1500 on admissible data (measured, `max_fmin_evaluations`)
+
+
+REAL_FMIN_CAP = 4000          # iterations / evaluations of scipy's real Nelder-Mead in the `norun_real` validation of the constant-objective shortcut
+
+
+class OptimiserBudgetExceeded(Exception):
+    pass
 
 
 def _woe():
@@ -47,26 +74,131 @@ def _woe():
     return woe
 
 
-def make_df(rows, labels=None):
+# ------------------------------------------------------------------ the optimiser proxy
+class _OptimizeProxy:
+    """Stands for the module `scipy.optimize` inside pylife.materialdata.woehler.maxlike: records every `fmin` call
+    (objective, start, answer); passes it on to scipy unless a stub answer is set or the constant-+inf shortcut applies."""
+
+    def __init__(self, real):
+        self.__dict__["_real"] = real
+        self.calls = []
+        self.stub = None
+        self.shortcut = False
+        self.shortcuts_taken = 0
+        self.max_evaluations = 0
+        self.budget = FMIN_BUDGET
+        self.cap = None
+
+    def __getattr__(self, name):
+        return getattr(self.__dict__["_real"], name)
+
+    @staticmethod
+    def _constant_inf(func, x0, args):
+        pts = [x0]
+        for i in range(len(x0)):
+            v = x0.copy()
+            v[i] = 1.05 * v[i] if v[i] != 0 else 0.00025          # scipy's initial simplex
+            pts.append(v)
+        r = random.Random(20260927)
+        for _ in range(6):
+            pts.append(x0 * np.array([10.0 ** r.uniform(-0.7, 0.7) for _ in x0]))
+        return all(func(np.array(p, dtype=np.float64), *args) == math.inf for p in pts)
+
+    def fmin(self, func, x0, args=(), **kw):
+        x0 = np.array(x0, dtype=np.float64)
+        call = {"func": func, "args": args, "x0": x0, "kw": dict(kw), "xopt": None, "mode": "real"}
+        self.calls.append(call)
+        full = kw.get("full_output", False)
+
+        def answer(x):
+            x = np.array(x, dtype=np.float64)
+            call["xopt"] = x
+            return (x, func(x, *args), 0, 1, 0) if full else x
+        if self.stub is not None:
+            call["mode"] = "stub"
+            return answer(self.stub(call))
+        if self.shortcut and self._constant_inf(func, x0, args):
+            call["mode"] = "shortcut"
+            self.shortcuts_taken += 1
+            return answer(x0)
+        n = [0]
+
+        def counted(x, *a):
+            n[0] += 1
+            if self.budget is not None and n[0] > self.budget:
+                raise OptimiserBudgetExceeded(f"scipy.optimize.fmin asked for more than {self.budget} objective evaluations")
+            return func(x, *a)
+        if self.cap is not None:      # (norun_real) scipy's real Nelder-Mead, with a smaller iteration budget than the code asks for
+            kw = dict(kw, maxiter=self.cap, maxfun=self.cap)
+            call["mode"] = "real-capped"
+        r = self.__dict__["_real"].fmin(counted, x0, args=args, **kw)
+        call["xopt"] = np.array(r[0] if full else r, dtype=np.float64)
+        call["evaluations"] = n[0]
+        if self.cap is None:
+            self.max_evaluations = max(self.max_evaluations, n[0])
+        return r
+
+
+def _rec():
+    """the recording proxy (installed on first use); None when maxlike.py no longer reaches the optimiser through the
+    module attribute `optimize` (then nothing is recorded and the ML correspondence lines say so)"""
+    _woe()
+    import pylife.materialdata.woehler.maxlike as M
+    opt = getattr(M, "optimize", None)
+    if isinstance(opt, _OptimizeProxy):
+        return opt
+    if opt is None or not hasattr(opt, "fmin"):
+        return None
+    M.optimize = _OptimizeProxy(opt)
+    return M.optimize
+
+
+def make_df(rows, labels=None, int_load=False, no_fracture_column=False):
     """the data frame handed to the real code; `labels` = row labels (None: a fresh RangeIndex)"""
-    return pd.DataFrame({"load": [float(r[0]) for r in rows], "cycles": [float(r[1]) for r in rows],
-                         "fracture": [bool(r[2]) for r in rows]}, index=labels)
+    df = pd.DataFrame({"load": [float(r[0]) for r in rows], "cycles": [float(r[1]) for r in rows],
+                       "fracture": [bool(r[2]) for r in rows]}, index=labels)
+    if int_load:
+        df["load"] = df["load"].astype("int64")
+    if no_fracture_column:
+        df = df[["load", "cycles"]]
+    return df
 
 
-def analyze(name, rows, labels=None):
-    """run one analyzer of the real code; returns dict of floats or {'error': kind}"""
+def has_runouts(rows):
+    return any(not r[2] for r in rows)
+
+
+def analyze(name, rows, labels=None, stub=None, calls=None, real_fmin=False, **dfkw):
+    """run one analyzer of the real code; returns dict of floats or {'error': kind}.  `stub(call)` = answer of the
+    optimiser (correspondence only); `calls` collects the recorded fmin calls"""
     woe = _woe()
     A = getattr(woe, name)
-    with warnings.catch_warnings():
-        warnings.simplefilter("ignore")
-        with np.errstate(all="ignore"):
-            try:
-                r = A(make_df(rows, labels)).analyze()
-            except ValueError as e:
-                return {"error": "ValueError: " + str(e)[:60]}
-            except Exception as e:      # any other exception of the code under test is an answer, not an infrastructure error
-                return {"error": type(e).__name__ + ": " + str(e)[:60]}
-    return {k: float(r[k]) for k in KEYS}
+    rec = _rec()
+    if rec is not None:
+        rec.calls = []
+        rec.stub = stub
+        rec.shortcut = (name == "MaxLikeFull" and not has_runouts(rows) and not real_fmin)
+        rec.cap = REAL_FMIN_CAP if real_fmin else None
+    try:
+        with warnings.catch_warnings():
+            warnings.simplefilter("ignore")
+            with np.errstate(all="ignore"):
+                try:
+                    r = A(make_df(rows, labels, **dfkw)).analyze()
+                except ValueError as e:
+                    return {"error": "ValueError: " + str(e)[:60]}
+                except OptimiserBudgetExceeded as e:
+                    return {"error": "BUDGET: " + str(e), "budget": True}
+                except Exception as e:      # any other exception of the code under test is an answer, not an infrastructure error
+                    return {"error": type(e).__name__ + ": " + str(e)[:60]}
+        return {k: float(r[k]) for k in KEYS}
+    finally:
+        if rec is not None:
+            if calls is not None:
+                calls.extend(rec.calls)
+            rec.stub = None
+            rec.shortcut = False
+            rec.cap = None
 
 
 _FRESH_SCRIPT = """
@@ -88,7 +220,7 @@ def analyze_fresh(names, rows):
     for line in p.stdout.splitlines():
         if line.startswith("RESULT "):
             return json.loads(line[7:])
-    raise RuntimeError("fresh-interpreter reference failed: " + (p.stderr or p.stdout)[-400:])
+    raise RuntimeError("harness: fresh-interpreter reference failed: " + (p.stderr or p.stdout)[-400:])
 
 
 def same(a, b, rtol):
@@ -104,6 +236,16 @@ def zone_info(rows):
         return None, [r for r in rows], []
     m = max(r[0] for r in run)
     return m, [r for r in rows if r[2] and r[0] > m], [r for r in rows if r[0] <= m]
+
+
+def dropped(rows):
+    """`irrelevant_runouts_dropped` re-stated: with at least two pure run-out levels, the highest of them below every
+    fractured level, the tests below that level go"""
+    fl = {r[0] for r in rows if r[2]}
+    pure = {r[0] for r in rows if not r[2]} - fl
+    if len(pure) <= 1 or not fl or not max(pure) < min(fl):
+        return list(rows)
+    return [r for r in rows if not r[0] < max(pure)]
 
 
 def admissible(rows):
@@ -130,20 +272,62 @@ def exact_admissible(rows):
     return len({r[0] for r in ff}) >= 2 and len({r[1] for r in ff}) >= 2
 
 
-def ml_admissible(rows):
-    """MaxLikeInf: two mixed levels and three fractures on two levels in the infinite zone (else the code raises), and
-    the share of fractures per load level of the infinite zone does not fall with the load and rises somewhere: otherwise
-    the probit-type likelihood has no interior maximum and the optimiser runs away (see ASSUMPTIONS)"""
+def monotone_shares(rows):
+    """the share of fractures per load level of the infinite zone does not fall with the load and rises somewhere"""
     _m, _fin, inf = zone_info(rows)
-    fl = {r[0] for r in inf if r[2]}
-    rl = {r[0] for r in inf if not r[2]}
-    if not (len(fl & rl) >= 2 and sum(1 for r in inf if r[2]) >= 3 and len(fl) >= 2):
-        return False
     share = []
     for L in sorted({r[0] for r in inf}):
         g = [r for r in inf if r[0] == L]
         share.append(sum(1 for r in g if r[2]) / len(g))
-    return all(b >= a for a, b in zip(share, share[1:])) and share[-1] > share[0]
+    return len(share) >= 2 and all(b >= a for a, b in zip(share, share[1:])) and share[-1] > share[0]
+
+
+def mlinf_accepts(rows):
+    """MaxLikeInf's own preconditions re-stated (on the reduced data): two mixed levels and three fractures on two
+    levels in the infinite zone (else the code raises ValueError)"""
+    _m, _fin, inf = zone_info(dropped(rows))
+    fl = {r[0] for r in inf if r[2]}
+    rl = {r[0] for r in inf if not r[2]}
+    return len(fl & rl) >= 2 and sum(1 for r in inf if r[2]) >= 3 and len(fl) >= 2
+
+
+def mlfull_accepts(rows):
+    d = dropped(rows)
+    return sum(1 for r in d if r[2]) >= 3 and len({r[0] for r in d if r[2]}) >= 2
+
+
+def mlfull_mode(rows):
+    """which parameters MaxLikeFull fixes (no user-fixed parameters): norun | fixTS | free"""
+    d = dropped(rows)
+    if not has_runouts(d):
+        return "norun"
+    mixed = {r[0] for r in d if r[2]} & {r[0] for r in d if not r[2]}
+    return "fixTS" if len(mixed) < 2 else "free"
+
+
+def ml_admissible(rows):
+    """MaxLikeInf's preconditions, and the share of fractures per load level of the infinite zone does not fall with the
+    load and rises somewhere: otherwise the probit-type likelihood has no interior maximum and the optimiser runs away
+    (see ASSUMPTIONS)"""
+    return mlinf_accepts(rows) and monotone_shares(rows)
+
+
+def staircase_admissible(rows):
+    """run-out-topped series: no fracture above the highest run-out level (empty finite zone), at least two levels with
+    fractures, a spread of the fracture cycles, monotone shares (a well-conditioned probit regression)"""
+    m, fin, _inf = zone_info(rows)
+    fr = [r for r in rows if r[2]]
+    return (m is not None and not fin and len({r[0] for r in fr}) >= 2 and len({r[1] for r in fr}) >= 2
+            and len({r[0] for r in rows}) >= 3 and monotone_shares(rows))
+
+
+def nonmonotonic(rows):
+    """a load level on which every specimen broke lies below the highest load level that has a run-out"""
+    m, _fin, _inf = zone_info(rows)
+    if m is None:
+        return False
+    rl = {r[0] for r in rows if not r[2]}
+    return any(L < m for L in {r[0] for r in rows if r[2]} - rl)
 
 
 # ------------------------------------------------------------------ generators
@@ -151,10 +335,15 @@ def logu(rng, lo, hi):
     return 10.0 ** rng.uniform(math.log10(lo), math.log10(hi))
 
 
-def gen_rows(rng, ml=False):
-    for _ in range(200):
+def gen_sd(rng):
+    """endurance limits from strain amplitudes (1e-4) to forces (1e4)"""
+    return rng.choice([logu(rng, 1, 1000), logu(rng, 1e-4, 1e4), logu(rng, 1e-4, 1e-1), 300.0, 100.0])
+
+
+def gen_rows(rng, ml=False, mode=None):
+    for _ in range(400):
         k = rng.uniform(3, 12)
-        SD = rng.choice([logu(rng, 1, 1000), 300.0, 100.0])
+        SD = gen_sd(rng)
         ND = logu(rng, 3e5, 3e6)
         TN = rng.uniform(1.5, 6)
         TS = rng.uniform(1.05, 1.4) if not ml else rng.uniform(1.1, 1.5)
@@ -167,25 +356,39 @@ def gen_rows(rng, ml=False):
             levels = [float(round(L)) if L > 20 else L for L in levels]
         limit = rng.choice([1e7, 2e6, 5e6])
         rows = []
-        mode = rng.choice(["natural", "natural", "natural", "no_runouts", "pure_runout_levels"]) if not ml else "natural"
+        md = mode or (rng.choice(["natural", "natural", "nonmonotonic", "nonmonotonic", "no_runouts", "pure_runout_levels"])
+                      if not ml else "natural")
         for L in levels:
             n = rng.choice([2, 3, 4, 5, 6])
             for _ in range(n):
                 sd_i = SD * 10 ** rng.gauss(0, sS)
                 N = ND * (L / SD) ** (-k) * 10 ** rng.gauss(0, sN)
-                if mode == "no_runouts":
+                if md == "no_runouts":
                     rows.append([L, min(N, limit * 0.99), True])
                 elif L <= sd_i or N >= limit:
                     rows.append([L, limit, False])
                 else:
                     rows.append([L, N, True])
-        if mode == "pure_runout_levels":
+        if md == "pure_runout_levels":
             for f in rng.sample([0.4, 0.5, 0.6, 0.65], rng.choice([2, 3])):
                 rows += [[SD * f, limit, False] for _ in range(rng.choice([1, 2]))]
+        if md == "nonmonotonic":
+            # a level on which every specimen broke, below the highest level with a run-out (Probit: the all-fracture
+            # Rossow estimate 0.5^(1/n) in the infinite zone; the reported transition must still lie above that run-out)
+            m, _fin, _inf = zone_info(rows)
+            if m is None:
+                continue
+            below = sorted({r[0] for r in rows if r[0] < m})
+            L = rng.choice(below) if below and rng.random() < 0.7 else m * rng.choice([0.93, 0.96, 0.98])
+            rows = [r for r in rows if r[0] != L]
+            for _ in range(rng.choice([1, 2, 3])):
+                rows.append([L, min(ND * (L / SD) ** (-k) * 10 ** rng.gauss(0, sN), limit * 0.99), True])
+            if not nonmonotonic(rows):
+                continue
         rng.shuffle(rows)
         if admissible(rows) and (not ml or ml_admissible(rows)):
             return rows, {"k_1": k, "ND": ND, "SD": SD, "TN": TN, "TS": TS}
-    raise RuntimeError("generator could not produce an admissible data set")
+    raise RuntimeError("harness: generator could not produce an admissible data set")
 
 
 def gen_labels(rng, rows):
@@ -217,27 +420,42 @@ def gen_labels(rng, rows):
     return labels
 
 
-def gen_data(rng):
-    rows, p = gen_rows(rng)
+def gen_factors(rng):
+    return [rng.choice(FACTOR_POOL_SMALL), rng.choice(FACTOR_POOL_LARGE)]
+
+
+def gen_rel(rng):
+    """relative parameter vectors at which the objectives of the ML analyzers are compared / the stub optimiser's answer"""
+    def one():
+        return {"k_1": rng.uniform(0.8, 1.25), "ND": rng.uniform(0.5, 2.0), "SD": rng.uniform(0.85, 1.15),
+                "TN": rng.uniform(1.0, 1.3), "TS": rng.uniform(1.0, 1.3)}
+    neg = one()
+    neg["SD"], neg["k_1"] = -neg["SD"], -neg["k_1"]          # `np.abs` in __make_parameters
+    zero_nd = dict(one(), ND=0.0)                            # log10(ND) = -inf: the likelihood is -inf
+    return {"stub": one(), "points": [{k: 1.0 for k in KEYS}, one(), one(), neg, zero_nd]}
+
+
+def gen_data(rng, mode=None):
+    rows, p = gen_rows(rng, mode=mode)
     q = {k: v * rng.uniform(0.8, 1.25) for k, v in p.items()}
     q["TN"], q["TS"] = max(q["TN"], 1.05), max(q["TS"], 1.02)
     return {"kind": "data", "rows": rows, "points": [p, q], "perm_seed": rng.randrange(10 ** 6),
-            "labels": gen_labels(rng, rows)}
+            "labels": gen_labels(rng, rows), "factors": gen_factors(rng) + gen_factors(rng), "rel": gen_rel(rng)}
 
 
 def gen_ml(rng, name):
     rows, p = gen_rows(rng, ml=True)
     return {"kind": "ml", "analyzer": name, "rows": rows, "points": [p], "perm_seed": rng.randrange(10 ** 6),
-            "factor": rng.choice(FACTORS), "labels": gen_labels(rng, rows)}
+            "factors": gen_factors(rng), "labels": gen_labels(rng, rows), "rel": gen_rel(rng)}
 
 
 def gen_one_mixed(rng):
     """a data set with run-outs but ONE mixed load level (and one pure run-out level below): MaxLikeFull then fixes TS to
     the pearl-chain value ('less than two mixed load levels')"""
     k = rng.uniform(4, 9)
-    SD = rng.choice([logu(rng, 50, 600), 300.0])
+    SD = rng.choice([logu(rng, 50, 600), logu(rng, 1e-3, 1e4), 300.0])
     ND = logu(rng, 5e5, 2e6)
-    sN = C_STD * math.log10(rng.uniform(1.05, 2.0))
+    sN = C_STD * math.log10(rng.choice([rng.uniform(1.05, 2.0), rng.uniform(1.4, 3.0)]))
     limit = 1e7
     rows = []
     for f in rng.sample([1.2, 1.35, 1.5, 1.65, 1.8], rng.choice([3, 4])):
@@ -253,15 +471,57 @@ def gen_one_mixed(rng):
     return rows
 
 
+def gen_ml_one_mixed(rng):
+    for _ in range(200):
+        rows = gen_one_mixed(rng)
+        if admissible(rows) and mlfull_mode(rows) == "fixTS":
+            p = {"k_1": 6.0, "ND": 1e6, "SD": max(r[0] for r in rows if not r[2]), "TN": 1.5, "TS": 1.1}
+            return {"kind": "ml", "analyzer": "MaxLikeFull", "rows": rows, "points": [p], "perm_seed": rng.randrange(10 ** 6),
+                    "factors": gen_factors(rng), "labels": gen_labels(rng, rows), "rel": gen_rel(rng)}
+    raise RuntimeError("harness: generator could not produce a one-mixed-level data set")
+
+
 def gen_history(rng):
     """a session: `first` is analysed, then `rows`; the results for `rows` must be those of a fresh interpreter"""
     rows, p = gen_rows(rng, ml=True)
     return {"kind": "history", "first": gen_one_mixed(rng), "rows": rows}
 
 
-def gen_exact(rng):
+def gen_staircase(rng):
+    """a staircase series topped by a run-out level: the finite zone is empty, the transition is guessed from the two
+    highest load levels (`_guess_from_second_highest_runout`); Probit and MaxLikeInf still estimate SD and TS"""
+    for _ in range(2000):
+        SD = gen_sd(rng)
+        TS = rng.uniform(1.1, 1.5)
+        sS = C_STD * math.log10(TS)
+        k, ND, sN = rng.uniform(3, 10), logu(rng, 3e5, 3e6), C_STD * math.log10(rng.uniform(1.5, 5))
+        nlev = rng.choice([3, 4, 5, 6])
+        step = rng.choice([0.04, 0.06, 0.08])
+        lo = 1.0 - step * (nlev - 1) / 2 + rng.uniform(-0.03, 0.03)
+        levels = [SD * (lo + step * i) for i in range(nlev)]
+        if rng.random() < 0.3 and SD > 50:
+            levels = [float(round(L)) for L in levels]
+        limit = rng.choice([1e7, 2e6])
+        rows = []
+        for L in levels:
+            for _ in range(rng.choice([2, 3, 4, 5, 6])):
+                if L <= SD * 10 ** rng.gauss(0, sS):
+                    rows.append([L, limit, False])
+                else:
+                    rows.append([L, min(ND * (L / SD) ** (-k) * 10 ** rng.gauss(0, sN), 0.99 * limit), True])
+        top = max(levels)
+        if not any(r[0] == top and not r[2] for r in rows):
+            rows.append([top, limit, False])
+        rng.shuffle(rows)
+        if staircase_admissible(rows):
+            return {"kind": "staircase", "rows": rows, "perm_seed": rng.randrange(10 ** 6), "labels": gen_labels(rng, rows),
+                    "factors": gen_factors(rng) + gen_factors(rng), "rel": gen_rel(rng)}
+    raise RuntimeError("harness: generator could not produce a staircase data set")
+
+
+def gen_exact_rows(rng):
     k = rng.choice([rng.uniform(2, 15), float(rng.randint(2, 12)), 0.5 * rng.randint(4, 20)])
-    SD = rng.choice([logu(rng, 1, 1000), 100.0, 256.0])
+    SD = rng.choice([logu(rng, 1, 1000), logu(rng, 1e-4, 1e4), 100.0, 256.0])
     ND = rng.choice([logu(rng, 1e5, 1e7), 1e6, 2.0 ** 20])
     nlev = rng.randint(2, 7)
     levels = rng.choice([[SD * (1.1 + 0.1 * i) for i in range(nlev)], [SD * 2 ** (i + 1) for i in range(nlev)],
@@ -272,8 +532,22 @@ def gen_exact(rng):
         rows += [[SD * 0.9, 1e9, False]] * rng.choice([1, 2])
     rng.shuffle(rows)
     if not exact_admissible(rows):
-        return gen_exact(rng)
+        return gen_exact_rows(rng)
+    return rows, k, SD, ND
+
+
+def gen_exact(rng):
+    rows, k, SD, ND = gen_exact_rows(rng)
     return {"kind": "exact", "rows": rows, "k": k, "SD0": SD, "ND0": ND}
+
+
+def gen_exact_batch(rng, n=40):
+    """one case = a batch of exact data sets: the share that comes back with TN = TS = 1 is part of the known finding"""
+    sets = []
+    for _ in range(n):
+        rows, k, _SD, _ND = gen_exact_rows(rng)
+        sets.append({"rows": rows, "k": k})
+    return {"kind": "exact_batch", "sets": sets}
 
 
 def permuted(rows, seed):
@@ -290,16 +564,60 @@ def wire(rows):
     return " ".join(f"{f2h(r[0])} {f2h(r[1])} {1 if r[2] else 0}" for r in rows)
 
 
+def rel5(p):
+    return " ".join(f2h(p[k]) for k in KEYS)
+
+
+# ------------------------------------------------------------------ the documented defective computation (known finding)
+def pearl_chain_repro(rows, k_1):
+    """The pearl-chain scatter estimate as pearl_chain.py + probability_data.py + functions.py compute it (the computation
+    documented in the known finding exact-basquin-scatter), re-stated with numpy / scipy on the finite-zone fractures of the
+    reduced data in row order.  Returns (log10-spread of the shifted cycles, TN, TS); TN = TS = 'raise' if the regression
+    raises."""
+    from scipy import stats
+    _m, fin, _inf = zone_info(dropped(rows))
+    ff = [r for r in fin if r[2]]
+    load = pd.Series([float(r[0]) for r in ff])
+    cyc = pd.Series([float(r[1]) for r in ff])
+    slope = -k_1
+    with np.errstate(all="ignore"), warnings.catch_warnings():
+        warnings.simplefilter("ignore")
+        nc = np.sort(cyc * ((load.mean() / load) ** slope))
+        n = len(nc)
+        fp = (3.0 * np.arange(1, n + 1) - 1.0) / (3.0 * n + 1.0)
+        x = np.log10(np.array(nc, dtype=np.float64))
+        spread = float(x.max() - x.min())
+        try:
+            s = stats.linregress(x, stats.norm.ppf(fp))[0]
+            TN = float(10 ** (C_RANGE * (1. / s)))
+            TS = float(TN ** (1. / -slope))
+        except ValueError:
+            TN = TS = "raise"
+    return spread, TN, TS
+
+
+def basquin_spread(rows, k):
+    """log10-spread of the cycles shifted along the TRUE slope (no code result involved)"""
+    _m, fin, _inf = zone_info(dropped(rows))
+    ff = [r for r in fin if r[2]]
+    x = [math.log10(r[1]) + k * math.log10(r[0]) for r in ff]
+    return max(x) - min(x)
+
+
 class C18(Prop):
     ID = "C18"
     SOURCES = SOURCES
+    PARALLEL = 8
     LEAN_MODULES = ["Proofs.C18"]
     THEOREMS = [f"PylifeVerif.C18.{t}" for t in [
         "ols_shift_equivariant", "ols_scale_equivariant", "ols_perm_invariant",
-        "zones_partition",
+        "zones_partition", "zones_partition_runout_topped",
         "elementary_load_scale", "elementary_cycle_scale", "elementary_perm_invariant",
         "probit_load_scale", "probit_cycle_scale", "probit_perm_invariant",
-        "exact_basquin_slope", "exact_basquin_no_scatter_partial",
+        "maxLikeInf_load_scale", "maxLikeInf_cycle_scale", "maxLikeInf_perm_invariant",
+        "maxLikeFull_load_scale", "maxLikeFull_cycle_scale", "maxLikeFull_perm_invariant",
+        "maxLikeFull_no_runouts_objective_constant",
+        "exact_basquin_slope", "exact_basquin_slope_probit_maxLikeInf", "exact_basquin_no_scatter_partial",
         "likelihood_invariant_under_scaling", "ml_not_worse_than_start_partial"]]
     PARTIAL = {
         "PylifeVerif.C18.exact_basquin_no_scatter_partial":
@@ -308,44 +626,77 @@ class C18(Prop):
             "undefined in exact arithmetic; the real code returns NaN / inf / arbitrary values depending on rounding "
             "(known finding exact-basquin-scatter).",
         "PylifeVerif.C18.ml_not_worse_than_start_partial":
-            "proved: an optimiser that never returns a point worse than its start (the Nelder-Mead contract: the best vertex of "
-            "the simplex is kept) yields a likelihood >= the likelihood of the start point.  ASSUMED: that scipy.optimize.fmin "
-            "honours this contract; MaxLikeInf starts from (finite_infinite_transition, TS = 1.2), not from the elementary TS - "
-            "the comparison is against the point actually used.  Measured per run on the real code.",
+            "proved about the model PIPELINES maxLikeInf / maxLikeFull (start point, objective, fixed parameters and "
+            "post-processing as in maxlike.py, tied to the code by the correspondence ops c18.mlinf / c18.mlinfobj / c18.mlfull / "
+            "c18.mlfullobj): for every optimiser that never returns a point worse than its start, the infinite-zone likelihood of "
+            "MaxLikeInf's result is >= that of (finite_infinite_transition, 1.2) and the total likelihood of MaxLikeFull's result "
+            "is >= the objective at the start vector, which IS the total likelihood of the elementary estimate when nothing is "
+            "fixed.  ASSUMED (the hypothesis of the theorem, not provable here): scipy.optimize.fmin keeps the best vertex of its "
+            "simplex, the start being one of them.  Measured per run on the real code (ml_start_checks_*).  MaxLikeInf starts "
+            "from TS = 1.2, not from the elementary TS: its result is compared with the point actually used.",
     }
     RULE = ("case = data (synthetic S-N data set: 5-7 load levels x 2-6 tests, log-normal scatter in load and cycle direction, "
-            "run-outs at a cycle limit, optionally no run-outs or extra pure run-out levels, shuffled rows) | ml (data set with >= 2 "
-            "mixed levels + analyzer MaxLikeInf / MaxLikeFull) | exact (data exactly on a Basquin line).  Correspondence: Lean model "
-            "(Float) vs real code for zones, irrelevant-run-out dropping, Elementary, Probit and the likelihood functions (1e-9 "
-            "relative, zones exact).  Oracle (real code only): analyzer(transformed data) vs transformed analyzer(data) for load "
-            "factors 3, 7, 1000, cycle factors 3, 7, 1000 and a row permutation; each test in exactly one zone on the correct side of "
-            "the reported transition; slope / scatter on exact Basquin data; likelihood(result) >= likelihood(start).  "
-            "Row labels of the frames handed to the code: fresh RangeIndex, shuffled, strings, and "
-            "labels repeating across / within the zones (pd.concat of two series without ignore_index); zone membership is "
-            "identified by position and counted.  history = a session (data set with ONE mixed level analysed first, then an "
-            "ML-admissible data set by all four analyzers) compared with the same analyses as the first ones of a fresh "
-            "interpreter (subprocess).  Non-trivial = every case (distinct cases counted)")
+            "run-outs at a cycle limit; modes: natural | nonmonotonic (a level on which every specimen broke below the highest "
+            "level with a run-out) | no run-outs | extra pure run-out levels; endurance limits 1e-4 .. 1e4; shuffled rows) | "
+            "staircase (series topped by a run-out level: empty finite zone, transition guessed from the two highest levels) | ml "
+            "(data set with >= 2 mixed levels + analyzer MaxLikeInf / MaxLikeFull, or ONE mixed level + MaxLikeFull: TS fixed) | "
+            "exact (data exactly on a Basquin line) | exact_batch (40 exact data sets: share with TN = TS = 1) | history.  "
+            "Correspondence: Lean model (Float) vs real code for zones (membership in the model's zone lists), irrelevant-run-out "
+            "dropping, Elementary, Probit, the likelihood functions, and the ML pipelines with the optimiser replaced on both "
+            "sides by the same given answer (objective values at given relative points, fixed-parameter mode, result) (1e-9 "
+            "relative, zones exact).  Oracle (real code, real optimiser): analyzer(transformed data) vs transformed analyzer(data) "
+            "for two load factors and two cycle factors out of {1e-4, 2^-10, 0.37, 3, 7, 1000} per case, a row permutation, other "
+            "row labels, integer-dtype loads, omitted fracture column; df.fatigue_data transition / zones under the same "
+            "transformations; each test in exactly one zone on the correct side of the reported transition; slope / scatter on "
+            "exact Basquin data; likelihood(result) >= likelihood(start).  MaxLikeFull runs on every data set without run-outs "
+            "(SD = 0, TS = 1 fixed).  history = a session (data set with ONE mixed level analysed first, then an ML-admissible "
+            "data set by all four analyzers) compared with the same analyses as the first ones of a fresh interpreter "
+            "(subprocess).  distinct_nontrivial counts distinct cases (every case exercises at least one analyzer on a "
+            "non-degenerate data set; the per-branch counts are in `distribution`)")
     ASSUMPTIONS = [
         "C18: theorems are over the reals; scipy.stats.linregress is modelled by the OLS closed form, norm.ppf / norm.cdf by "
-        "arbitrary functions Q / Phi (the equivariance proofs need nothing about them); np.sort by insertion sort; groupby('load') "
-        "by the ascending distinct levels",
-        "C18: admissible data set = at least two fractured load levels with a spread of cycles in the FINITE zone and at least three finite-zone fractures that are not collinear in log-log (two points are always an exact Basquin line: kind `exact`) (otherwise the "
-        "analyzers warn and return NaN, or raise - loud), positive loads and cycles, the automatic finite/infinite transition "
-        "(set_finite_infinite_transition / conservative_finite_infinite_transition are opt-in and not covered)",
+        "arbitrary functions Q / Phi (the equivariance proofs need nothing about them; the driver uses its own Phi and a "
+        "bisection for Phi^-1, agreement with scipy is seen only through the compared outputs); np.sort by insertion sort; "
+        "groupby('load') by the ascending distinct levels (pandas groups by exact float equality and sorts the keys); "
+        "np.unique / setxor1d / intersect1d / setdiff1d by exact float set algebra",
+        "C18: scipy.optimize.fmin is a PARAMETER of the model pipelines maxLikeInf / maxLikeFull (an arbitrary function of the "
+        "objective): the equivariance / permutation theorems hold for every optimiser because the objective handed over is the "
+        "same function for the transformed data set; on the real code two runs see objectives that differ by rounding, which "
+        "Nelder-Mead amplifies: the oracle compares at 1e-5 relative (measured <= 4e-7).  'Not worse than the start' is proved "
+        "under the hypothesis that the optimiser keeps its best vertex (not verified for scipy; measured per run)",
+        "C18: admissible data set (kind data) = at least two fractured load levels with a spread of cycles in the FINITE zone and at "
+        "least three finite-zone fractures that are not collinear in log-log (two points are always an exact Basquin line: kind "
+        "`exact`), positive loads and cycles, the automatic finite/infinite transition (set_finite_infinite_transition / "
+        "conservative_finite_infinite_transition and MaxLikeFull's user `fixed_parameters` are opt-in and not covered).  Series "
+        "topped by a run-out level (kind staircase) have an empty finite zone: Elementary and MaxLikeFull return k_1 = inf and "
+        "NaN (loud: UserWarning) - this branch of Elementary.analyze is not in the Lean model; there zones, transition, and "
+        "SD / TS of Probit and MaxLikeInf are compared with the model and all five keys (NaN = NaN) between transformed runs",
         "C18: admissible additionally means that the finite-zone regression is a Woehler line with k_1 > 1 (a falling S-N curve). Few "
         "finite-zone tests with large scatter can give k_1 <= 0; the code then returns TS = TN^(1/k_1) < 1 silently and the ML "
         "analyzers start outside the model's parameter domain and run away (observed on the repaired tree: SD = 2e5, ND = 1e-19, "
         "TS = 3e-26, row-order dependent at 7e-3) - no estimate exists there, nothing is claimed",
         "C18: ML-admissible additionally means that the share of fractures per load level of the infinite zone does not fall with "
         "the load: for staircase data with an inverted level the likelihood in (SD, TS) has no interior maximum and fmin runs "
-        "away (observed on the repaired tree: TS = 2e8 / 1.6e29, SD = 4.9e5, ND = 0) - no estimate exists there, nothing is claimed",
+        "away (observed on the repaired tree: TS = 2e8 / 1.6e29, SD = 4.9e5, ND = 0) - no estimate exists there, nothing is "
+        "claimed (the real optimiser is not run there; the stub-optimiser correspondence is)",
         "C18: under load scaling ND is compared only when the reported SD is not 0: with no run-outs the code reports SD = 0 and "
         "evaluates ND at the fixed load 0.1 (a FIXME in the source), which the property's sentence on load scaling does not mention",
-        "C18: scipy.optimize.fmin (Nelder-Mead) is external: assumed never to return a point worse than its start; its absolute "
-        "stopping tolerances limit the equivariance of the ML analyzers to about 1e-4 relative (documented in the module docstring)",
+        "C18: MaxLikeFull on data without run-outs fixes SD = 0, for which likelihood_finite is -inf: the objective is constant "
+        "(theorem maxLikeFull_no_runouts_objective_constant), the result is the elementary estimate with TS = 1, 'likelihood >= "
+        "start' holds there only as -inf >= -inf (counted: ml_start_vacuous_minus_inf), and the real Nelder-Mead needs its whole "
+        "budget of 1e5 evaluations (about 100 s) to return the start: the harness's optimiser proxy verifies the objective is +inf "
+        "on the start simplex and 6 probe points and returns the start at once; `norun_real` cases run scipy's real Nelder-Mead "
+        "on that objective, capped at 4000 evaluations (every iteration is the same shrink step towards the start vertex, which "
+        "is never replaced), and compare",
+        "C18: when the likelihood at the START of an ML search is -inf (objective +inf on the whole start simplex; e.g. one mixed level "
+        "and an elementary TS so close to 1 that a fracture below SD has probability 0 in double precision) Nelder-Mead only "
+        "shrinks its simplex and the code returns the start after 1e5 evaluations (about 100 s): the real optimiser is not run "
+        "on such data sets (counted: ml_start_likelihood_minus_inf_not_optimised); any other run that asks for more than 30000 "
+        "objective evaluations is reported (class optimiser-budget-exceeded; the unchanged code needs < 1500)",
         "C18: bayesian.py (pymc) is not part of the property",
         "C18 (formalisation choice): 'the estimate for a data set' is a function of the tests (load, cycles, fracture) alone - "
-        "not of the row labels of the DataFrame (checked: repeating / shuffled / string labels vs a fresh RangeIndex) and not of "
+        "not of the row labels of the DataFrame (checked: repeating / shuffled / string labels vs a fresh RangeIndex), not of the "
+        "dtype of the load column or of whether the fracture flags are given or derived from the cycle limit, and not of "
         "what the process analysed before (checked: history cases, reference = first analysis of a fresh interpreter). The "
         "property quantifies over data sets, not over sessions; without this reading its relations between two runs are meaningless",
     ]
@@ -353,6 +704,7 @@ class C18(Prop):
     def __init__(self):
         self.stats = {}
         self.exhaustive = False
+        self._last_base = {}
 
     def _count(self, key, n=1):
         self.stats[key] = self.stats.get(key, 0) + n
@@ -360,96 +712,218 @@ class C18(Prop):
     # -------------------------------------------------------------- generation
     def generate(self, rng, tier):
         big = tier != "quick"
-        n_data, n_exact, n_inf, n_full, n_hist = (32, 30, 5, 1, 1) if not big else (500, 400, 50, 8, 12)
+        n_hist, n_data, n_stair, n_exact, n_batch, n_inf, n_full, n_one = \
+            (1, 32, 8, 30, 1, 5, 2, 2) if not big else (8, 300, 60, 300, 8, 40, 10, 6)
         for _ in range(n_hist):       # first: later cases of the run cannot have prepared the interpreter state for them
             yield gen_history(rng)
-        for _ in range(n_data):
-            yield gen_data(rng)
+        for _ in range(3 if big else 1):
+            yield {"kind": "norun_real", "rows": gen_rows(rng, mode="no_runouts")[0]}
+        for i in range(n_data):
+            # every mode is present in every run, whatever the seed draws
+            yield gen_data(rng, mode=["nonmonotonic", "no_runouts", "pure_runout_levels", "natural"][i] if i < 4 else None)
+        for _ in range(n_stair):
+            yield gen_staircase(rng)
         for _ in range(n_exact):
             yield gen_exact(rng)
+        for _ in range(n_batch):
+            yield gen_exact_batch(rng)
         for _ in range(n_inf):
             yield gen_ml(rng, "MaxLikeInf")
         for _ in range(n_full):
             yield gen_ml(rng, "MaxLikeFull")
+        for _ in range(n_one):
+            yield gen_ml_one_mixed(rng)
 
     # -------------------------------------------------------------- correspondence
-    def model_lines(self, case):
-        w = wire(case["rows"])
+    def _plan(self, case):
+        """the correspondence lines of a case: list of (tag, model protocol line); tags steer `impl_lines` and `compare`"""
         k = case["kind"]
-        if k == "history":
+        if k in ("history", "exact_batch", "norun_real"):
             return []
+        rows = case["rows"]
+        w = wire(rows)
         if k == "exact":
-            return [f"c18.elem {w}"]
-        lines = [f"c18.zones {w}", f"c18.drop {w}"]
+            return [("curve_exact", f"c18.elem {w}")]
+        plan = [("zones", f"c18.zones {w}"), ("drop", f"c18.drop {w}")]
         if k == "data":
-            lines += [f"c18.elem {w}", f"c18.probit {w}"]
-        for p in case["points"]:
-            lines.append(f"c18.lik {f2h(p['SD'])} {f2h(p['TS'])} {f2h(p['k_1'])} {f2h(p['ND'])} {f2h(p['TN'])} {w}")
-        return lines
+            plan += [("curve:Elementary", f"c18.elem {w}"), ("curve:Probit", f"c18.probit {w}")]
+        if k == "staircase":
+            plan += [("sdts:Probit", f"c18.probit {w}")]
+        for p in case.get("points", []):
+            plan.append(("lik", f"c18.lik {f2h(p['SD'])} {f2h(p['TS'])} {f2h(p['k_1'])} {f2h(p['ND'])} {f2h(p['TN'])} {w}"))
+        rel = case.get("rel")
+        if rel:
+            regular = k != "staircase"
+            if mlinf_accepts(rows):
+                for p in rel["points"][:3]:       # (not the negative SD: MaxLikeInf has no np.abs; log10 of a negative ratio is NaN, which pandas' sum skips)
+                    plan.append(("obj2", f"c18.mlinfobj {f2h(p['SD'])} {f2h(p['TS'])} {w}"))
+                plan.append((("curve" if regular else "sdts") + ":MaxLikeInf",
+                             f"c18.mlinf {f2h(rel['stub']['SD'])} {f2h(rel['stub']['TS'])} {w}"))
+            if regular and mlfull_accepts(rows):
+                for p in rel["points"]:
+                    plan.append(("obj5", f"c18.mlfullobj {rel5(p)} {w}"))
+                plan.append(("full", f"c18.mlfull {rel5(rel['stub'])} {w}"))
+        return plan
+
+    def model_lines(self, case):
+        return [line for _tag, line in self._plan(case)]
+
+    def _stub_run(self, name, case):
+        """the analyzer with the optimiser answering `rel.stub`; returns (result, recorded call or None)"""
+        stub = case["rel"]["stub"]
+
+        def answer(call):
+            if name == "MaxLikeInf":
+                return [stub["SD"], stub["TS"]]
+            return [stub[key] for key in call["args"][0]]
+        calls = []
+        r = analyze(name, case["rows"], case.get("labels"), stub=answer, calls=calls)
+        return r, (calls[0] if calls else None)
 
     def impl_lines(self, case):
         woe = _woe()
         k = case["kind"]
         self._count("cases_" + k)
+        plan = self._plan(case)
+        if not plan:
+            return []
         rows = case["rows"]
-
         labels = case.get("labels")
 
         def curve(name):
             r = analyze(name, rows, labels)
             return r["error"] if "error" in r else " ".join(f2h(r[key]) for key in KEYS)
-        if k == "history":
-            return []
-        if k == "exact":
-            return [curve("Elementary")]
-        self._count("labels_" + ("range" if labels is None else "unique" if len(set(labels)) == len(labels) else "repeating"))
+
+        def fmt(v):
+            return "-inf" if v == -math.inf else f2h(v)
+        out = []
+        stubbed = {}
+        lik_i = 0
+        obj_i = {"obj2": 0, "obj5": 0}
+        if k != "exact":
+            self._count("labels_" + ("range" if labels is None else "unique" if len(set(labels)) == len(labels) else "repeating"))
+            self._count("datasets_nonmonotonic" if nonmonotonic(rows) else "datasets_monotonic")
         with warnings.catch_warnings():
             warnings.simplefilter("ignore")
             df = make_df(rows, labels)
             df["pos"] = range(len(df))          # the position identifies a test whatever its row label is
             fd = df.fatigue_data
-            tr = float(fd.finite_infinite_transition)
-            fi, ii = list(fd.finite_zone.pos), list(fd.infinite_zone.pos)
-            flags = ["B" if (i in fi and i in ii) else "F" if i in fi else "I" if i in ii else "N" for i in range(len(df))]
-            self._count("zone_tests_finite", len(fi))
-            self._count("zone_tests_infinite", len(ii))
-            self._count("datasets_without_runouts" if fd.num_runouts == 0 else "datasets_with_runouts")
-            kept = fd.irrelevant_runouts_dropped()._obj
-            if len(kept) < len(df):
-                self._count("datasets_with_dropped_runouts")
-            out = [f"{f2h(tr)} {len(fi)} {len(ii)} | " + " ".join(flags),
-                   f"{len(kept)} | " + " ".join(f2h(v) for v in kept.load.values)]
-            if k == "data":
-                out += [curve("Elementary"), curve("Probit")]
             lh = woe.likelihood.Likelihood(fd)
-            for p in case["points"]:
-                with np.errstate(all="ignore"):
-                    q = {key: np.float64(v) for key, v in p.items()}      # the code expects numpy scalars (`(SD > 0.0).all()`)
-                    a = float(lh.likelihood_finite(q["SD"], q["k_1"], q["ND"], q["TN"]))
-                    b = float(lh.likelihood_infinite(q["SD"], q["TS"]))
-                out.append(" ".join("-inf" if v == -math.inf else f2h(v) for v in (a, b)))
+            for tag, _line in plan:
+                if tag == "curve_exact":
+                    out.append(curve("Elementary"))
+                elif tag == "zones":
+                    tr = float(fd.finite_infinite_transition)
+                    fi, ii = list(fd.finite_zone.pos), list(fd.infinite_zone.pos)
+                    flags = ["B" if (i in fi and i in ii) else "F" if i in fi else "I" if i in ii else "N" for i in range(len(df))]
+                    self._count("zone_tests_finite", len(fi))
+                    self._count("zone_tests_infinite", len(ii))
+                    self._count("datasets_without_runouts" if fd.num_runouts == 0 else "datasets_with_runouts")
+                    if fd.num_runouts and not fi:
+                        self._count("datasets_transition_guessed")
+                    out.append(f"{f2h(tr)} {len(fi)} {len(ii)} | " + " ".join(flags))
+                elif tag == "drop":
+                    kept = fd.irrelevant_runouts_dropped()._obj
+                    if len(kept) < len(df):
+                        self._count("datasets_with_dropped_runouts")
+                    out.append(f"{len(kept)} | " + " ".join(f2h(v) for v in kept.load.values))
+                elif tag.startswith("curve:") or tag.startswith("sdts:"):
+                    name = tag.split(":")[1]
+                    if name == "MaxLikeInf":
+                        r = stubbed.setdefault(name, self._stub_run(name, case))[0]
+                        out.append(r["error"] if "error" in r else " ".join(f2h(r[key]) for key in KEYS))
+                    else:
+                        out.append(curve(name))
+                    if name == "Probit":
+                        self._probit_branches(rows)
+                elif tag == "lik":
+                    p = case["points"][lik_i]
+                    lik_i += 1
+                    with np.errstate(all="ignore"):
+                        q = {key: np.float64(v) for key, v in p.items()}      # the code expects numpy scalars (`(SD > 0.0).all()`)
+                        a = float(lh.likelihood_finite(q["SD"], q["k_1"], q["ND"], q["TN"]))
+                        b = float(lh.likelihood_infinite(q["SD"], q["TS"]))
+                    out.append(" ".join(fmt(v) for v in (a, b)))
+                elif tag in ("obj2", "obj5"):
+                    name = "MaxLikeInf" if tag == "obj2" else "MaxLikeFull"
+                    r, call = stubbed.setdefault(name, self._stub_run(name, case))
+                    p = case["rel"]["points"][obj_i[tag]]
+                    obj_i[tag] += 1
+                    if "error" in r:
+                        out.append(r["error"])
+                    elif call is None:
+                        self._count("ml_objective_not_captured")
+                        out.append("uncaptured")
+                    else:
+                        x = [p["SD"], p["TS"]] if tag == "obj2" else [p[key] for key in call["args"][0]]
+                        with np.errstate(all="ignore"):
+                            v = -float(call["func"](np.array(x, dtype=np.float64), *call["args"]))
+                        self._count("ml_objective_points_compared")
+                        out.append(fmt(v))
+                elif tag == "full":
+                    r, call = stubbed.setdefault("MaxLikeFull", self._stub_run("MaxLikeFull", case))
+                    if "error" in r:
+                        out.append(r["error"])
+                    else:
+                        n = len(call["x0"]) if call is not None else -1
+                        mode = {5: "free", 4: "fixTS", 3: "norun"}.get(n, "uncaptured" if call is None else f"n={n}")
+                        self._count("mlfull_mode_" + mode)
+                        out.append(mode + " " + " ".join(f2h(r[key]) for key in KEYS))
         return out
+
+    def _probit_branches(self, rows):
+        _m, _fin, inf = zone_info(dropped(rows))
+        lv = sorted({r[0] for r in inf})
+        if len(lv) < 2:
+            self._count("probit_falls_back_to_elementary")
+            return
+        for L in lv:
+            g = [r for r in inf if r[0] == L]
+            f = sum(1 for r in g if r[2])
+            self._count("probit_level_" + ("no_fracture" if f == 0 else "all_fractured" if f == len(g) else "mixed"))
 
     def compare(self, case, model_out, impl_out):
         if len(model_out) != len(impl_out):
             return f"length {len(model_out)} vs {len(impl_out)}"
-        for i, (a, b) in enumerate(zip(model_out, impl_out)):
+        tags = [t for t, _l in self._plan(case)]
+        for i, (tag, a, b) in enumerate(zip(tags, model_out, impl_out)):
             if a == b:
                 continue
+            if b == "uncaptured" or b.startswith("uncaptured "):
+                continue          # maxlike.py no longer calls `optimize.fmin`: nothing to compare (counted in the distribution)
             ta, tb = a.split(), b.split()
             if len(ta) != len(tb):
-                return f"line {i}: model={a[:200]!r} impl={b[:200]!r}"
+                return f"line {i} ({tag}): model={a[:200]!r} impl={b[:200]!r}"
+            offset = 1 if tag == "full" else 0
+            flat = False
+            if tag.endswith(":Probit") and len(ta) == 5 and all(len(t) == 16 for t in ta + tb):
+                # probit regression with slope 0 within rounding (e.g. levels with 1 of 1 and 2 of 3 fractures: both 0.5):
+                # TS = 10^(c/0), SD = 10^(-i/0) are inf / NaN by the sign of the rounding noise; theorem guard `hps` excludes it
+                flat = any(not (abs(h2f(t[4])) < PROBIT_TS_MAX) for t in (ta, tb))
             for j, (x, y) in enumerate(zip(ta, tb)):
+                if tag in ("lik", "obj2", "obj5"):      # a log-likelihood of -inf: `none` in the model, or a sum that is -inf
+                    x, y = ("-inf" if t == "fff0000000000000" else t for t in (x, y))
                 if x == y:
                     continue
+                if tag in ("lik", "obj2", "obj5") and "-inf" in (x, y):
+                    other = y if x == "-inf" else x
+                    if len(other) == 16 and h2f(other) < -700.0:
+                        continue      # a factor Phi(z) at z < -37: 0 in one implementation of Phi, 1e-310 in the other (ln(2.2e-308) = -708)
                 if len(x) == 16 and len(y) == 16:
                     fx, fy = h2f(x), h2f(y)
-                    if case["kind"] == "exact" and j >= 3:
-                        continue      # TN / TS of a 0/0 regression: rounding noise on both sides (see the oracle)
-                    if same(fx, fy, K_RTOL) or abs(fx - fy) <= 1e-9:
+                    key = KEYS[j - offset] if (tag.startswith(("curve", "sdts")) or tag == "full") and 0 <= j - offset < 5 else None
+                    if tag == "curve_exact" and key in ("TN", "TS") and basquin_spread(case["rows"], case["k"]) < EXACT_SPREAD:
+                        continue      # TN / TS of a 0/0 regression (shifted cycles coincide within rounding): noise on both sides (see the oracle)
+                    if flat and key in ("SD", "ND", "TS"):
                         continue
-                    return f"line {i} token {j}: model={fx!r} impl={fy!r}"
-                return f"line {i} token {j}: model={x!r} impl={y!r}"
+                    if tag.startswith("sdts") and key not in ("SD", "TS"):
+                        continue      # empty finite zone: the k_1 = inf / NaN branch of Elementary.analyze is not modelled
+                    if same(fx, fy, K_RTOL):
+                        continue
+                    if tag in ("lik", "obj2", "obj5") and abs(fx - fy) <= 1e-9:
+                        continue      # log-likelihood sums near 0
+                    return f"line {i} ({tag}) token {j}{' ' + key if key else ''}: model={fx!r} impl={fy!r}"
+                return f"line {i} ({tag}) token {j}: model={x!r} impl={y!r}"
         return None
 
     def nontrivial(self, case, model_out):
@@ -457,20 +931,49 @@ class C18(Prop):
 
     # -------------------------------------------------------------- oracle
     def oracle(self, case):
+        try:
+            return self._oracle(case)
+        finally:
+            rec = _rec()
+            if rec is not None:
+                self.stats["max_fmin_evaluations"] = max(self.stats.get("max_fmin_evaluations", 0), rec.max_evaluations)
+                if rec.shortcuts_taken:
+                    self._count("fmin_constant_inf_shortcuts", rec.shortcuts_taken)
+                    rec.shortcuts_taken = 0
+
+    def _oracle(self, case):
         k = case["kind"]
         if k == "history":
             return self._oracle_history(case)
         if k == "data":
-            return self._oracle_zones(case) or self._oracle_equivariance(case, ["Elementary", "Probit"], CF_RTOL, FACTORS)
+            rows = case["rows"]
+            names = ["Elementary", "Probit"]
+            res = (self._oracle_zones(case) or self._oracle_fatigue_data(case)
+                   or self._oracle_equivariance(case, names, CF_RTOL))
+            if res is None and not has_runouts(rows) and mlfull_accepts(rows):
+                # MaxLikeFull without run-outs: SD = 0 and TS = 1 are fixed
+                res = (self._oracle_equivariance(case, ["MaxLikeFull"], ML_RTOL, must_accept=True)
+                       or self._oracle_ml_start(dict(case, analyzer="MaxLikeFull")))
+            return res
+        if k == "staircase":
+            names = ["Elementary", "Probit"] + (["MaxLikeInf"] if ml_admissible(case["rows"]) else [])
+            return (self._oracle_zones(case) or self._oracle_fatigue_data(case)
+                    or self._oracle_equivariance(case, names, CF_RTOL, rtols={"MaxLikeInf": ML_RTOL}))
         if k == "ml":
-            return (self._oracle_equivariance(case, [case["analyzer"]], ML_RTOL, [case["factor"]])
+            if not ml_admissible(case["rows"]) and not (case["analyzer"] == "MaxLikeFull" and mlfull_mode(case["rows"]) == "fixTS"):
+                self._count("ml_cases_outside_claimed_domain")       # (old corpus cases) the optimiser runs away: nothing is claimed
+                return None
+            return (self._oracle_equivariance(case, [case["analyzer"]], ML_RTOL, must_accept=True)
                     or self._oracle_ml_start(case))
         if k == "exact":
             return self._oracle_exact(case)
+        if k == "exact_batch":
+            return self._oracle_exact_batch(case)
+        if k == "norun_real":
+            return self._oracle_norun_real(case)
         return None
 
-    def _oracle_zones(self, case):
-        rows, labels = case["rows"], case.get("labels")
+    def _zones_of(self, rows, labels=None):
         _woe()                                  # registers the `fatigue_data` accessor
         with warnings.catch_warnings():
             warnings.simplefilter("ignore")
@@ -479,6 +982,11 @@ class C18(Prop):
             fd = df.fatigue_data
             tr = float(fd.finite_infinite_transition)
             fi, ii = [int(v) for v in fd.finite_zone.pos], [int(v) for v in fd.infinite_zone.pos]
+        return tr, fi, ii
+
+    def _oracle_zones(self, case):
+        rows, labels = case["rows"], case.get("labels")
+        tr, fi, ii = self._zones_of(rows, labels)
         if len(fi) + len(ii) != len(rows):
             return (f"the zones hold {len(fi)} + {len(ii)} of the {len(rows)} tests (transition {tr!r}; row labels "
                     f"{'repeat' if labels is not None and len(set(labels)) < len(labels) else 'are unique'})", "zones-partition")
@@ -490,36 +998,123 @@ class C18(Prop):
             L = float(r[0])
             if i in fi and not (L > tr and bool(r[2])):
                 return (f"finite-zone test {i}: load {L!r} not above the reported transition {tr!r} or not a fracture", "zones-partition")
-            if i in ii and fi and not L < tr:
-                return (f"infinite-zone test {i}: load {L!r} not below the reported transition {tr!r}", "zones-partition")
+            if i in ii and not L < tr:
+                # (with run-outs the transition lies strictly above the highest run-out level, also when it is guessed
+                # from the two highest levels of a run-out-topped series: theorem zones_partition_runout_topped)
+                return (f"infinite-zone test {i} ({'fracture' if r[2] else 'run-out'}): load {L!r} not below the reported "
+                        f"transition {tr!r}", "zones-partition")
         return None
 
-    def _oracle_equivariance(self, case, names, rtol, factors):
+    def _oracle_fatigue_data(self, case):
+        """`df.fatigue_data`: the reported transition and the zones under a row permutation and load / cycle scaling"""
         rows = case["rows"]
+        tr, fi, ii = self._zones_of(rows)
+        n = len(rows)
+        order = list(range(n))
+        random.Random(case["perm_seed"]).shuffle(order)
+        variants = [("rows permuted", [rows[i] for i in order], order, 1.0),
+                    ("rows sorted by load", *(lambda o: ([rows[i] for i in o], o))(sorted(range(n), key=lambda i: rows[i][0])), 1.0),
+                    ("rows sorted by falling load", *(lambda o: ([rows[i] for i in o], o))(sorted(range(n), key=lambda i: -rows[i][0])), 1.0)]
+        for c in case.get("factors", FACTORS):
+            variants.append((f"loads x {c:g}", scaled(rows, cl=c), list(range(n)), c))
+            variants.append((f"cycles x {c:g}", scaled(rows, cn=c), list(range(n)), 1.0))
+        for what, vrows, origin, c in variants:
+            tr2, fi2, ii2 = self._zones_of(vrows)
+            self._count("fatigue_data_relations")
+            if not same(tr2, c * tr, 1e-12):
+                return (f"df.fatigue_data.finite_infinite_transition: {what}: {tr2!r}, expected {c * tr!r} (original {tr!r})",
+                        "transition-equivariance")
+            if sorted(origin[i] for i in fi2) != sorted(fi) or sorted(origin[i] for i in ii2) != sorted(ii):
+                return (f"df.fatigue_data zones: {what}: finite zone holds the tests {sorted(origin[i] for i in fi2)}, "
+                        f"originally {sorted(fi)}", "transition-equivariance")
+        return None
+
+    def _oracle_equivariance(self, case, names, rtol, must_accept=False, rtols=None):
+        rows = case["rows"]
+        factors = case.get("factors") or ([case["factor"]] if "factor" in case else FACTORS)
         for name in names:
+            tol = (rtols or {}).get(name, rtol)
+            if name in ("MaxLikeInf", "MaxLikeFull") and not (name == "MaxLikeFull" and not has_runouts(rows)):
+                # The likelihood at the START of the search is -inf (e.g. the elementary TS is so small that a fracture below
+                # SD has probability 0 in double precision): every vertex of Nelder-Mead's start simplex is +inf, the
+                # simplex only shrinks towards the start, and the code returns the start after its whole budget of 1e5
+                # evaluations (about 100 s per run, measured).  "Not worse than the start" is then -inf >= -inf; the
+                # real optimiser is not run there (the stub-optimiser correspondence is).
+                calls = []
+                probe = analyze(name, rows, stub=lambda call: call["x0"], calls=calls)
+                if "error" not in probe and calls:
+                    with np.errstate(all="ignore"):
+                        f0 = float(calls[0]["func"](calls[0]["x0"], *calls[0]["args"]))
+                    if f0 == math.inf:
+                        self._count("ml_start_likelihood_minus_inf_not_optimised")
+                        self._last_base = {(name, json.dumps(rows)): {"error": "not optimised: likelihood -inf at the start"}}
+                        continue
             base = analyze(name, rows)
-            variants = [("rows permuted", permuted(rows, case["perm_seed"]), {}, None)]
-            if case.get("labels") is not None:
+            self._last_base = {(name, json.dumps(rows)): base}
+            # ML results: the optimiser resolves each parameter RELATIVE to its start value (xtol on p / start), so a
+            # parameter that the optimum drives to ~0 (e.g. k_1 -> 0 on a flat series: 6e-16 vs 7e-17) is resolved
+            # absolutely on the scale of its start value: deviations are measured against max(|expected|, |start|)
+            floor = analyze("Elementary", rows) if tol != CF_RTOL else {}
+            if "error" in floor:
+                floor = {}
+            if base.get("budget"):
+                return (f"{name}: {base['error']} (the unchanged code needs < 1500)", "optimiser-budget-exceeded")
+            if must_accept and "error" in base:
+                return (f"{name} rejects a data set that meets its documented preconditions: {base['error']}",
+                        "ml-rejects-admissible-data")
+            variants = [("rows permuted", permuted(rows, case["perm_seed"]), {}, None, {})]
+            if case.get("labels") is not None and name != "MaxLikeFull":
+                # (MaxLikeFull: a run costs a second; its label handling is exercised by the stub-optimiser correspondence,
+                # which hands the labelled frame to the code, and by the history / data cases)
                 lab = case["labels"]
                 variants.append((f"same rows with {'repeating' if len(set(lab)) < len(lab) else 'other unique'} row labels "
-                                 f"(e.g. {lab[:4]!r}) instead of a fresh RangeIndex", rows, {}, lab))
-            for c in factors:
-                variants.append((f"loads x {c:g}", scaled(rows, cl=c), {"SD": c}, None))
-                variants.append((f"cycles x {c:g}", scaled(rows, cn=c), {"ND": c}, None))
-            for what, vrows, fac, vlabels in variants:
-                got = analyze(name, vrows, vlabels)
+                                 f"(e.g. {lab[:4]!r}) instead of a fresh RangeIndex", rows, {}, lab, {}))
+            if tol == CF_RTOL:
+                if all(float(r[0]).is_integer() and abs(r[0]) < 2 ** 53 for r in rows):
+                    variants.append(("load column of dtype int64", rows, {}, None, {"int_load": True}))
+                run = [r for r in rows if not r[2]]
+                if run and len({r[1] for r in run}) == 1 and all(r[1] < run[0][1] for r in rows if r[2]):
+                    variants.append(("fracture column omitted (flags derived from the cycle limit by determine_fractures)",
+                                     rows, {}, None, {"no_fracture_column": True}))
+            if tol == CF_RTOL or len(factors) < 2:
+                for c in factors:
+                    variants.append((f"loads x {c:g}", scaled(rows, cl=c), {"SD": c}, None, {}))
+                    variants.append((f"cycles x {c:g}", scaled(rows, cn=c), {"ND": c}, None, {}))
+            else:       # an optimiser run costs a second: one factor below 1 for the loads, one above 1 for the cycles, or the other way round
+                a, b = (factors[0], factors[1]) if case["perm_seed"] % 2 else (factors[1], factors[0])
+                variants.append((f"loads x {a:g}", scaled(rows, cl=a), {"SD": a}, None, {}))
+                variants.append((f"cycles x {b:g}", scaled(rows, cn=b), {"ND": b}, None, {}))
+            variants.sort(key=lambda v: 0 if v[2] else 1)      # the scalings first (stable): a broken relation shows after few runs
+            for what, vrows, fac, vlabels, dfkw in variants:
+                got = analyze(name, vrows, vlabels, **dfkw)
                 self._count("analyzer_runs_" + name)
+                if got.get("budget"):
+                    return (f"{name}: {what}: {got['error']} (the unchanged code needs < 1500)", "optimiser-budget-exceeded")
+                if dfkw:
+                    self._count("variant_" + next(iter(dfkw)))
                 if ("error" in base) != ("error" in got):
                     return (f"{name}: {what}: {got.get('error', 'a result')} but the original data give "
                             f"{base.get('error', 'a result')}", "equivariance-" + name)
                 if "error" in base:
                     self._count("analyzer_rejects_" + name)
                     continue
+                flat = name == "Probit" and not (abs(base["TS"]) < PROBIT_TS_MAX and abs(got["TS"]) < PROBIT_TS_MAX)
+                if flat:
+                    self._count("probit_slope_zero_within_rounding")
                 for key in KEYS:
                     if key == "ND" and what.startswith("loads") and base["SD"] == 0.0:
                         continue
+                    if flat and key in ("SD", "ND", "TS"):
+                        continue      # probit regression with slope 0 within rounding: inf / NaN by the sign of the noise (theorem guard `hps`)
                     want = base[key] * fac.get(key, 1.0)
-                    if not same(got[key], want, rtol):
+                    # SD, ND, TN, TS are computed as 10^x: a relative error eps of x is ln(10) |x| eps in the value
+                    cond = max(1.0, abs(math.log10(abs(want))) / 3.0) if (key != "k_1" and want == want and 0 < abs(want) < math.inf) else 1.0
+                    scale = abs(floor.get(key, 0.0) * fac.get(key, 1.0))
+                    if scale == scale and scale < math.inf and abs(got[key] - want) <= tol * cond * scale:
+                        if not same(got[key], want, tol * cond):
+                            self._count("ml_compared_on_start_scale")
+                        continue
+                    if not same(got[key], want, tol * cond):
                         return (f"{name}: {what}: {key} = {got[key]!r}, expected {want!r} (original {base[key]!r}); "
                                 f"relative deviation {abs(got[key] - want) / abs(want) if want else float('inf'):.3g}",
                                 "equivariance-" + name)
@@ -549,48 +1144,128 @@ class C18(Prop):
         return self._oracle_ml_start(dict(case, analyzer="MaxLikeFull"))
 
     def _oracle_ml_start(self, case):
+        """log-likelihood of the result >= log-likelihood at the point the search starts from (computed with the code's own
+        Likelihood class on the data the analyzer works with; for MaxLikeFull the start is the elementary curve with the
+        parameters the code fixes)"""
         woe = _woe()
         name = case["analyzer"]
+        rows = case["rows"]
+        res = self._last_base.get((name, json.dumps(rows))) or analyze(name, rows)
+        if "error" in res:
+            return None
+        el = analyze("Elementary", rows)
         with warnings.catch_warnings():
             warnings.simplefilter("ignore")
             with np.errstate(all="ignore"):
-                try:
-                    an = getattr(woe, name)(make_df(case["rows"]))
-                    res = an.analyze()
-                except ValueError:
-                    return None
-                lh = woe.likelihood.Likelihood(an._fd)
+                fd = make_df(rows).fatigue_data.irrelevant_runouts_dropped()
+                lh = woe.likelihood.Likelihood(fd)
+
+                def total(c):
+                    q = {k: np.float64(v) for k, v in c.items()}
+                    return float(lh.likelihood_total(q["SD"], q["TS"], q["k_1"], q["ND"], q["TN"]))
                 if name == "MaxLikeInf":
-                    start = (float(an._fd.finite_infinite_transition), 1.2)
-                    l0 = float(lh.likelihood_infinite(*start))
-                    l1 = float(lh.likelihood_infinite(float(res["SD"]), float(res["TS"])))
+                    start = (float(fd.finite_infinite_transition), 1.2)
+                    l0 = float(lh.likelihood_infinite(np.float64(start[0]), np.float64(start[1])))
+                    l1 = float(lh.likelihood_infinite(np.float64(res["SD"]), np.float64(res["TS"])))
+                    # the property's wording ("than the elementary estimate"): recorded, not required - MaxLikeInf does not
+                    # start from the elementary TS and re-evaluates ND, so the TOTAL likelihood may fall
+                    self._count("mlinf_total_likelihood_" + ("ge" if total(res) >= total(el) - 1e-9 else "lt") + "_elementary")
                 else:
-                    el = woe.Elementary(make_df(case["rows"])).analyze()
-                    start = tuple(float(el[k]) for k in KEYS)
-                    l0 = float(lh.likelihood_total(el["SD"], el["TS"], el["k_1"], el["ND"], el["TN"]))
-                    l1 = float(lh.likelihood_total(res["SD"], res["TS"], res["k_1"], res["ND"], res["TN"]))
+                    mode = mlfull_mode(rows)
+                    start = dict(el)
+                    if mode == "norun":
+                        start["SD"], start["TS"] = 0.0, 1.0
+                    l0, l1 = total(start), total(res)
+                    self._count("ml_start_mode_" + mode)
         self._count("ml_start_checks_" + name)
+        if l0 == -math.inf and l1 == -math.inf:
+            self._count("ml_start_vacuous_minus_inf")
+            return None
         if not (l1 >= l0 - 1e-9 * max(1.0, abs(l0))):
             return (f"{name}: log-likelihood of the result {l1!r} is lower than at its start point {start!r}: {l0!r}",
                     "ml-worse-than-start")
         return None
 
-    def _oracle_exact(self, case):
-        r = analyze("Elementary", case["rows"])
+    def _exact_one(self, rows, k):
+        """(failure or None, 'one' | 'known' | None) for one exact data set"""
+        r = analyze("Elementary", rows)
         if "error" in r:
-            return (f"Elementary on exact Basquin data: {r['error']}", "exact-basquin-slope")
-        if not same(r["k_1"], case["k"], 1e-9):
-            return (f"exact Basquin data with slope {case['k']!r}: k_1 = {r['k_1']!r}", "exact-basquin-slope")
-        for key in ("TN", "TS"):
-            if not (abs(r[key] - 1.0) <= 1e-6):
-                self._count("exact_scatter_" + ("nan" if r[key] != r[key] else "inf" if abs(r[key]) == math.inf else "off"))
-                return (f"exact Basquin data (k = {case['k']!r}): {key} = {r[key]!r} instead of 1", "exact-basquin-scatter")
-        self._count("exact_scatter_one")
+            return (f"Elementary on exact Basquin data: {r['error']}", "exact-basquin-slope"), None
+        if not same(r["k_1"], k, 1e-9):
+            return (f"exact Basquin data with slope {k!r}: k_1 = {r['k_1']!r}", "exact-basquin-slope"), None
+        if abs(r["TN"] - 1.0) <= 1e-6 and abs(r["TS"] - 1.0) <= 1e-6:
+            return None, "one"
+        # TN / TS are not 1.  The KNOWN finding is exactly this mechanism: the shifted (pearl chain) cycles coincide within
+        # rounding (log10-spread < 1e-12), the probability-net regression is a 0/0 and the code returns what
+        # linregress makes of the rounding noise.  Accepted as known only if the code's values ARE that computation.
+        spread, TN, TS = pearl_chain_repro(rows, r["k_1"])
+        what = "nan" if r["TN"] != r["TN"] else "inf" if abs(r["TN"]) == math.inf else "off"
+        desc = (f"exact Basquin data (k = {k!r}): TN = {r['TN']!r}, TS = {r['TS']!r} instead of 1 "
+                f"(log10-spread of the shifted cycles {spread:.3g})")
+        if spread < EXACT_SPREAD and TN != "raise" and same(r["TN"], TN, 0.0) and same(r["TS"], TS, 0.0):
+            self._count("exact_scatter_" + what)
+            return (desc + " - the 0/0 pearl-chain regression of the known finding", "exact-basquin-scatter"), "known"
+        return (desc + f" - NOT the documented 0/0 regression (that gives TN = {TN!r}, TS = {TS!r})", "exact-basquin-scatter-other"), None
+
+    def _oracle_exact(self, case):
+        res, how = self._exact_one(case["rows"], case["k"])
+        if how == "one":
+            self._count("exact_scatter_one")
+        if res is not None and res[1] == "exact-basquin-scatter" and self.known(res[1], res[0]):
+            return None
+        return res
+
+    def _oracle_exact_batch(self, case):
+        ones = known = 0
+        for s in case["sets"]:
+            res, how = self._exact_one(s["rows"], s["k"])
+            if how == "one":
+                ones += 1
+            elif how == "known":
+                known += 1
+                self.known(res[1], res[0])
+            else:
+                return res
+        n = len(case["sets"])
+        self._count("exact_batch_sets", n)
+        self._count("exact_batch_scatter_one", ones)
+        self._count("exact_batch_scatter_known_0_div_0", known)
+        if ones < EXACT_RATE_MIN * n:
+            return (f"only {ones} of {n} exact Basquin data sets come back with TN = TS = 1 (the known 0/0 finding hit "
+                    f"{known}); recorded rate 0.81, alarm below {EXACT_RATE_MIN}", "exact-basquin-scatter-rate")
+        return None
+
+    def _oracle_norun_real(self, case):
+        """MaxLikeFull without run-outs with scipy's real Nelder-Mead (capped at REAL_FMIN_CAP evaluations instead of the
+        code's 1e5: on the constant objective every iteration is the same shrink step towards the start vertex, which is
+        never replaced) returns what the shortcut returns: the start"""
+        a = analyze("MaxLikeFull", case["rows"], real_fmin=True)
+        b = analyze("MaxLikeFull", case["rows"])
+        self._count("norun_real_fmin_runs")
+        for key in KEYS:
+            if "error" in a or "error" in b or not same(a[key], b[key], 0.0):
+                return (f"MaxLikeFull without run-outs: real fmin gives {a!r}, the constant-objective shortcut {b!r}",
+                        "harness-shortcut-differs")
         return None
 
     # -------------------------------------------------------------- shrinking
+    def _in_domain(self, case):
+        k = case["kind"]
+        rows = case["rows"]
+        if k == "exact":
+            return exact_admissible(rows)
+        if k == "staircase":
+            return staircase_admissible(rows)
+        if k in ("ml", "history"):
+            if k == "ml" and case["analyzer"] == "MaxLikeFull" and mlfull_mode(rows) == "fixTS":
+                return admissible(rows) and mlfull_accepts(rows)
+            return admissible(rows) and ml_admissible(rows)
+        return admissible(rows)
+
     def shrink(self, case, still_fails):
         import time
+        if "rows" not in case:
+            return case
         cur = dict(case)
         changed = True
         t_end = time.time() + (45 if case["kind"] in ("history", "ml") else 90)     # ML / history oracles cost seconds per call
@@ -599,14 +1274,11 @@ class C18(Prop):
             for i in range(len(cur["rows"])):
                 if time.time() >= t_end:
                     break
-                rows = cur["rows"][:i] + cur["rows"][i + 1:]
-                if not (exact_admissible(rows) if cur["kind"] == "exact" else admissible(rows)):
-                    continue
-                if cur["kind"] in ("ml", "history") and not ml_admissible(rows):
-                    continue
-                cand = dict(cur, rows=rows)
+                cand = dict(cur, rows=cur["rows"][:i] + cur["rows"][i + 1:])
                 if cur.get("labels") is not None:
                     cand["labels"] = cur["labels"][:i] + cur["labels"][i + 1:]
+                if not self._in_domain(cand):
+                    continue
                 try:
                     if still_fails(cand):
                         cur, changed = cand, True
